@@ -22,7 +22,7 @@ Definition sim_delta : Z := 2000000000.
 Definition cfg_repo_eps (d e : Z) : config :=
   Config lock_freshness_interval file_lock_poll_interval lock_stale_factor (Z.to_nat lock_empty_retries)
          lock_empty_sleep lock_empty_count_resets (lock_hb_checks_created && lock_hb_check_before_truncate)
-         (lock_empty_mtime_guard && (lock_empty_mtime_factor =? lock_stale_factor)) d e.
+         (lock_empty_mtime_guard && (lock_empty_mtime_factor =? lock_stale_factor)) lock_undecodable_as_empty d e.
 Definition cfg_repo (d : Z) : config := cfg_repo_eps d 0.
 
 Record ev := Ev { etime : Z; ekind : Z; ea : Z; eb : Z }.   (* kind: 0 start(tid, pid) 1 unlock(tid) 2 kill(pid) 3 cancel(tid) 4 stop(pid) 5 cont(pid) *)
@@ -181,6 +181,44 @@ Definition recovers_ok (c : case) : bool :=
       existsb (fun o => (oout o =? 0) && (tk <? otime o) && (otime o <=? tk + recovery_bound)) (cobs c)
     else true) (cevents c).
 
+(** a pre-made lock file has no live owner (its holder is dead): it becomes obtainable once it
+    is stale - by its timestamps (Updated, else Created; none: at once), or, for an empty or
+    undecodable file, by its modification time - and then a persistent waiter must acquire
+    within a poll interval, the empty-read retries and the slack.  A waiter that returns an
+    error, or is still waiting then, fails the clause. *)
+Definition stale_span : Z := lock_stale_factor * lock_freshness_interval.
+Definition pre_free_at (c : case) : option Z :=
+  match cinit c with
+  | None => None
+  | Some (FMeta cr u) =>
+      Some (match (match u with Some x => Some x | None => cr end) with
+            | Some r => Z.max 0 (r + stale_span)
+            | None => 0
+            end)
+  | Some _ => Some (Z.max 0 (cmtime c + stale_span))
+  end.
+Definition pre_bound : Z := file_lock_poll_interval + lock_empty_retries * lock_empty_sleep + slack.
+Definition not_killed (c : case) (o : ob) : bool :=
+  match first_time (cevents c) 2 (pid_of (cevents c) (otid o)) with Some _ => false | None => true end.
+Definition prefile_recovers_ok (c : case) : bool :=
+  match pre_free_at c with
+  | None => true
+  | Some tf =>
+      let to := tf + pre_bound in
+      (* somebody obtained the lock in time *)
+      existsb (fun o => (oout o =? 0) && (otime o <=? to)) (cobs c) ||
+      negb (existsb (fun o =>
+              match first_time (cevents c) 0 (otid o) with
+              | Some st =>
+                  (st <=? tf + 2000000000) && not_killed c o &&
+                  ((* Lock gave up with an error of its own although the file was obtainable *)
+                   (((oout o =? 2) || (oout o =? 3)) && (tf <=? otime o)) ||
+                   (* or is still waiting (or only its context ended) long after *)
+                   (persistent_waiter c tf to o && (to <? chorizon c)))
+              | None => false
+              end) (cobs c))
+  end.
+
 Definition cancel_ok (c : case) : bool :=
   forallb (fun e =>
     if ekind e =? 3 then
@@ -224,7 +262,7 @@ Definition free_ok (c : case) : bool :=
                         end) (cobs c)
   end.
 
-Definition spec_ok (c : case) : bool := mutex_ok c && recovers_ok c && cancel_ok c && free_ok c.
+Definition spec_ok (c : case) : bool := mutex_ok c && recovers_ok c && prefile_recovers_ok c && cancel_ok c && free_ok c.
 
 (** ** "distinct names never block each other": cases of kind 1
 
@@ -356,7 +394,7 @@ Definition explain_line (l : list Z) : list Z :=
       | Some c =>
           flat_map (fun x => [Z.of_nat (fst (fst x)); snd (fst x); snd x / 1000000]) (model_outlog c 0) ++
           [-7; (if mutex_ok c then 1 else 0); (if recovers_ok c then 1 else 0); (if cancel_ok c then 1 else 0);
-           (if free_ok c then 1 else 0)]
+           (if free_ok c then 1 else 0); (if prefile_recovers_ok c then 1 else 0)]
       | None => []
       end
   | 2 :: r =>
